@@ -1,5 +1,6 @@
 #!/usr/bin/env python3
 import ast
+import io
 import os
 from collections import defaultdict
 from typing import Dict, Tuple, Union
@@ -136,7 +137,9 @@ MappingType = Dict[str, Dict[str, Tuple[str, str]]]
 
 
 def rewrite_imports(source_code: str, mapping: MappingType) -> Union[str, None]:
-    lines = source_code.splitlines(keepends=True)
+    # Split on "\n", "\r\n" and "\r" only, like the tokenizer does: str.splitlines() also
+    # breaks on form feeds etc., which would shift the line numbers reported by ast
+    lines = io.StringIO(source_code, newline='').readlines()
     tree = ast.parse(source_code)
     replacements = []
 
